@@ -384,6 +384,7 @@ func ruleSeparators(c *core.Ctx, rule string) {
 				core.Undecided("case %s: entry not found in control-flow graph", name)
 			}
 			o.At(fn.Site(cc, "case "+name))
+			predCuts := typePredicateCuts(c, fn, g, tsw, cc, needSep)
 			// (1) first writes
 			for _, wv := range bodyVs {
 				ws := writes[wv]
@@ -409,11 +410,19 @@ func ruleSeparators(c *core.Ctx, rule string) {
 				o.Count(1)
 				// must be unreachable from entries once the needSep-false edges and separator writes are cut
 				av := core.AvoidVs(sepVs...).WithEdges(sepFalse...)
+				bad := false
 				for _, e := range entries {
 					if g.ReachFrom(e, true, av)[wv] {
-						o.FailAt(fn.Site(ws.Call, ws.What), "output may start with a regular byte but no separator is written when needSep is true")
-						break
+						bad = true
 					}
+				}
+				if bad && len(predCuts) > 0 {
+					// a separator written in front of the switch under a predicate on the
+					// dynamic type: the edges the predicate rules out for this case's types are cut
+					bad = g.ReachFrom(g.Entry, true, av.WithEdges(predCuts...))[wv]
+				}
+				if bad {
+					o.FailAt(fn.Site(ws.Call, ws.What), "output may start with a regular byte but no separator is written when needSep is true")
 				}
 			}
 			// (2) returns
@@ -1052,4 +1061,172 @@ func sepFirstFunc(c *core.Ctx, fn *core.Func, idx int, reg core.ByteSet, depth i
 		}
 	}
 	return !reach[g.Exit]
+}
+
+// typePredicateCuts: conditions of doFormat that call a predicate on the
+// dynamic type of the switch operand (a function whose body is a type switch
+// over its parameter returning boolean constants).  For the types of the
+// case clause cc the predicate has a known value; the edge that contradicts
+// it is returned, to be cut from reachability queries about this clause.
+func typePredicateCuts(c *core.Ctx, fn *core.Func, g *core.Graph, tsw *ast.TypeSwitchStmt, cc *ast.CaseClause, sepParam types.Object) []core.EdgeRef {
+	info := fn.Info()
+	// the operand of the switch
+	var operand types.Object
+	switch a := tsw.Assign.(type) {
+	case *ast.AssignStmt:
+		if ta, ok := ast.Unparen(a.Rhs[0]).(*ast.TypeAssertExpr); ok {
+			operand = core.ObjOf(info, ta.X)
+		}
+	case *ast.ExprStmt:
+		if ta, ok := ast.Unparen(a.X).(*ast.TypeAssertExpr); ok {
+			operand = core.ObjOf(info, ta.X)
+		}
+	}
+	if operand == nil {
+		return nil
+	}
+	var cuts []core.EdgeRef
+	// value of a conjunct that is a predicate call on the operand: (value, known)
+	predValue := func(e ast.Expr) (bool, bool) {
+		e = ast.Unparen(e)
+		neg := false
+		if u, ok := e.(*ast.UnaryExpr); ok && u.Op == token.NOT {
+			e, neg = ast.Unparen(u.X), true
+		}
+		call, ok := e.(*ast.CallExpr)
+		if !ok || len(call.Args) != 1 || core.ObjOf(info, call.Args[0]) != operand {
+			return false, false
+		}
+		callee := core.Callee(info, call)
+		if callee == nil {
+			return false, false
+		}
+		pf := c.Prog.FuncOf(callee)
+		if pf == nil || pf.Decl.Body == nil {
+			return false, false
+		}
+		allTrue, allFalse := true, true
+		for _, t := range cc.List {
+			v, ok := typePredicateValue(pf, info.TypeOf(t), core.IsNil(info, t))
+			if !ok {
+				return false, false
+			}
+			if v {
+				allFalse = false
+			} else {
+				allTrue = false
+			}
+		}
+		if allTrue {
+			return !neg, true
+		}
+		if allFalse {
+			return neg, true
+		}
+		return false, false
+	}
+	var conjuncts func(e ast.Expr) []ast.Expr
+	conjuncts = func(e ast.Expr) []ast.Expr {
+		if be, ok := ast.Unparen(e).(*ast.BinaryExpr); ok && be.Op == token.LAND {
+			return append(conjuncts(be.X), conjuncts(be.Y)...)
+		}
+		return []ast.Expr{e}
+	}
+	for _, bv := range g.BranchVertices() {
+		if bv.Cond.Expr == nil || bv.Cond.Tag != nil {
+			continue
+		}
+		var rest []ast.Expr
+		known, falsified := false, false
+		for _, cj := range conjuncts(bv.Cond.Expr) {
+			v, ok := predValue(cj)
+			if !ok {
+				rest = append(rest, cj)
+				continue
+			}
+			known = true
+			if !v {
+				falsified = true
+			}
+		}
+		if !known {
+			continue
+		}
+		if falsified {
+			cuts = append(cuts, core.EdgeRef{From: bv, Label: core.EdgeTrue})
+			continue
+		}
+		// the predicate conjuncts hold: the condition is the conjunction of the rest
+		if len(rest) == 0 {
+			cuts = append(cuts, core.EdgeRef{From: bv, Label: core.EdgeFalse})
+		} else if len(rest) == 1 && sepParam != nil && core.ObjOf(info, rest[0]) == sepParam {
+			// "needSep && p(x)" with p true: the false edge means needSep is false
+			cuts = append(cuts, core.EdgeRef{From: bv, Label: core.EdgeFalse})
+		}
+	}
+	return cuts
+}
+
+// typePredicateValue evaluates a predicate of the form
+//
+//	func p(x T) bool { switch x.(type) { case A, B: return true; default: return false } }
+//
+// for the dynamic type t (or for the nil interface).
+func typePredicateValue(pf *core.Func, t types.Type, isNil bool) (bool, bool) {
+	info := pf.Info()
+	body := pf.Decl.Body.List
+	if len(body) == 0 || len(body) > 2 {
+		return false, false
+	}
+	ts, ok := body[0].(*ast.TypeSwitchStmt)
+	if !ok {
+		return false, false
+	}
+	retConst := func(stmts []ast.Stmt) (bool, bool) {
+		if len(stmts) != 1 {
+			return false, false
+		}
+		r, ok := stmts[0].(*ast.ReturnStmt)
+		if !ok || len(r.Results) != 1 {
+			return false, false
+		}
+		v := core.ConstOf(info, r.Results[0])
+		if v == nil || v.Kind() != constant.Bool {
+			return false, false
+		}
+		return constant.BoolVal(v), true
+	}
+	var def []ast.Stmt
+	hasDef := false
+	for _, cl := range ts.Body.List {
+		cc := cl.(*ast.CaseClause)
+		if cc.List == nil {
+			def, hasDef = cc.Body, true
+			continue
+		}
+		for _, ct := range cc.List {
+			if core.IsNil(info, ct) {
+				if isNil {
+					return retConst(cc.Body)
+				}
+				continue
+			}
+			if ctt := info.TypeOf(ct); !isNil && ctt != nil && t != nil && types.Identical(ctt, t) {
+				return retConst(cc.Body)
+			}
+			// an interface case would need an implements test: not evaluated
+			if ctt := info.TypeOf(ct); ctt != nil {
+				if _, isIface := ctt.Underlying().(*types.Interface); isIface {
+					return false, false
+				}
+			}
+		}
+	}
+	if hasDef {
+		return retConst(def)
+	}
+	if len(body) == 2 {
+		return retConst(body[1:])
+	}
+	return false, false
 }
